@@ -113,7 +113,8 @@ def _cli_draw(case, inst, counts, out):
         with stubs.TempDir() as tmp:
             src, dst = os.path.join(tmp, "rec.json"), os.path.join(tmp, "rec.tex")
             with open(src, "w") as fh:
-                json.dump(data, fh)
+                # a reconciliation file is one JSON document: on one line as `reconcile` writes it, or indented
+                json.dump(data, fh, indent=(2 if orientation == "vertical" else None))
             with stubs.stub_tex(default=(14.0, 9.0)):
                 status, _o, err = stubs.run_cli(["draw", "--input", src, "--output", dst, "--orientation", orientation])
             code = open(dst).read() if os.path.exists(dst) else ""
